@@ -1555,7 +1555,9 @@ class PlayerApplicationSettingChangedEvent(Event):
                 case ApplicationSetting.AttributeId.SCAN_ON_OFF:
                     self.value_id = ApplicationSetting.ScanOnOffStatus(self.value_id)
                 case _:
-                    self.value_id = ApplicationSetting.GenericValue(self.value_id)
+                    # Attribute IDs outside the standard ones (e.g. the 0x80-0xFF
+                    # menu extension range) have no value enumeration.
+                    pass
 
     player_application_settings: Sequence[Setting] = field(
         metadata=hci.metadata(Setting.parse_from_bytes, list_begin=True, list_end=True)
